@@ -15,10 +15,16 @@ try:
 except Exception:  # reported by regen() as a broken obligation
     _C = {"verified_methods": ["DELETE", "GET", "POST", "PUT"], "maxBytes": 1 << 20,
           "registered_claims": ["aud", "exp", "jti", "iat", "iss", "nbf", "sub"]}
-CHECKED = list(_C["verified_methods"])
+# Identifiers used by the MODEL and by prop_ok are those of the property, committed here, never taken from the tree under
+# test: DELETE/GET/POST/PUT = 1..4 (Model.checked; the methods the unchanged tree verifies, = F9_VERIFIED below) and the seven
+# registered claim names = 1..7 (Model.is_std, k_exp = 2, k_iat = 4, k_nbf = 6).  The lists extracted from the source go to
+# coq/gen/C18Consts.v, where GenProofs.v checks their size and distinctness: a reordered case list is harmless, a dropped
+# or added entry breaks the obligation AND shows as a failing request here (an unsigned PUT that runs, an `iss` claim in
+# the handler's context).
+CHECKED = ["DELETE", "GET", "POST", "PUT"]
 OTHER_METHODS = [m for m in ["PATCH", "HEAD", "OPTIONS", "TRACE", "get", "CONNECT", "PURGE", "options", "DELETE", "PUT"]
                  if m not in CHECKED][:8]
-STD = {n: i + 1 for i, n in enumerate(_C["registered_claims"])}
+STD = {"aud": 1, "exp": 2, "jti": 3, "iat": 4, "iss": 5, "nbf": 6, "sub": 7}
 MAXBYTES = _C["maxBytes"]
 ALG = {"HS256": "HS256", "HS384": "HS384", "HS512": "HS512", "none": "ANone", "asym": "AAsym", "unknown": "AUnknown"}
 ALGID = {"HS256": 1, "HS384": 2, "HS512": 3}
@@ -132,7 +138,7 @@ def res_term(s):
 class C18(Property):
     id = "C18"
     title = "Authentication gates: protected handlers run only for valid credentials"
-    quick_cases = 600
+    quick_cases = 540
     thorough_cases = 9000
     design_ref = "DESIGN.md §6/C18"
     proof_targets = ["theories/C18/Props.vo", "theories/C18/Pinned.vo", "theories/C18/GenProofs.vo",
@@ -331,7 +337,7 @@ class C18(Property):
         reqs = [jr(st, "OPTIONS", xh) for xh in bundles.values() for st in states]
         for m in ALL_METHODS:
             if m != "OPTIONS":
-                reqs += [jr(st, m, bundles[b]) for b in ("none", "preflight_h", "all") for st in states]
+                reqs += [jr(st, m, bundles[b]) for b in ("preflight_h", "all") for st in ("absent", "valid", "expired", "wrong")]
         for i in range(0, len(reqs), 18):
             out.append({"kind": "jwt", "secret": "s1", "prev": "s0", "cb": 1, "reqs": reqs[i:i + 18]})
         out.append({"kind": "jwt", "secret": "s1", "prev": "", "cb": 0, "reqs": [
@@ -359,7 +365,7 @@ class C18(Property):
             {"jwt": None, "sig": {"strict": True, "tol": 100, "keys": [{"fp": "fb", "file": "B"}]},
              "routes": [[m, "/s/one"] for m in ROUTER_METHODS], "opts": []},
         ]
-        for cors, bname in (("", "preflight_h"), ("", "all"), ("", "none"), ("all", "preflight_h")):
+        for cors, bname in (("", "preflight_h"), ("", "all"), ("all", "preflight_h")):
             if True:
                 sreqs = []
                 for m in ROUTER_METHODS:
@@ -1772,11 +1778,21 @@ class C18(Property):
             return res
         if case["kind"] == "srv":
             rs = case["sreqs"]
+            if len(rs) > 1 and not any(q.get("reuse") is not None for q in rs):
+                # a single request on the same server is the usual minimum; then halves
+                for i in range(len(rs)):
+                    res.append(dict(case, sreqs=[rs[i]]))
+                res.append(dict(case, sreqs=rs[:len(rs) // 2]))
+                res.append(dict(case, sreqs=rs[len(rs) // 2:]))
             for i in range(len(rs)):
-                if len(rs) > 1:
+                if 1 < len(rs) <= 12:
                     c = dict(case)
                     c["sreqs"] = rs[:i] + rs[i + 1:]
                     res.append(c)
+            if len(rs) == 1 and rs[0]["cs"].get("xh"):
+                xh = rs[0]["cs"]["xh"]
+                for x in ([xh[:len(xh) // 2], xh[len(xh) // 2:]] if len(xh) > 1 else [[]]):
+                    res.append(dict(case, sreqs=[dict(rs[0], cs=dict(rs[0]["cs"], xh=x))]))
             used = {q["tgt"] for q in rs} | {q["donor"] for q in rs}
             for gi in range(len(case["sgroups"])):
                 if gi not in {q["tgt"] for q in rs} and len(case["sgroups"]) > 1:
